@@ -38,6 +38,31 @@ def closure_var(fn, name):
         return "?"
 
 
+def closure_state(fn):
+    """Everything a decorator wrapper keeps in its closure except functions and locks - whatever the
+    variables are called (a changed implementation may keep its memo differently; state the merge
+    key does not see would let the search merge states with different futures)."""
+    fn = getattr(fn, "__func__", fn)
+    out = []
+    try:
+        names, cells = fn.__code__.co_freevars, fn.__closure__ or ()
+    except AttributeError:
+        return "?"
+    for name, cell in zip(names, cells):
+        try:
+            v = cell.cell_contents
+        except ValueError:
+            continue
+        if callable(v) or "lock" in type(v).__name__.lower():
+            continue
+        out.append((name, repr(sorted(v.items(), key=repr)) if isinstance(v, dict) else repr(v)))
+    return tuple(out)
+
+
+class ProbeFailure(Exception):
+    """Raised by a probe body that was told to fail."""
+
+
 class Impl:
     """The real library in a reset world; `do(op)` executes one operation and returns what a
     caller can observe."""
@@ -53,6 +78,7 @@ class Impl:
         self.apply_env(env0)
         self.e = env0
         self.runs = {"tsc": 0, 0: 0, 1: 0}
+        self.fail_next = False      # the next run of a probe body raises ProbeFailure (once)
         if Impl._probes is None:
             Impl._probes = self._make_probes()
         self.tsc, self.cached = Impl._probes
@@ -75,12 +101,18 @@ class Impl:
         def tprobe_body():
             me = Impl._current
             me.runs["tsc"] += 1
+            if me.fail_next:
+                me.fail_next = False
+                raise ProbeFailure("tsc")
             t = me.tty
             return (t.cols, t.rows, t.xpx, t.ypx, me.envs[me.e].q_area)
 
         def cprobe_body(arg):
             me = Impl._current
             me.runs[arg] += 1
+            if me.fail_next:
+                me.fail_next = False
+                raise ProbeFailure(arg)
             return (arg, me.e)
 
         return u.terminal_size_cached(tprobe_body), u.cached(cprobe_body)
@@ -130,12 +162,22 @@ class Impl:
             return (colors, tuple(map(int, m.groups())))
         elif k == "tsc":
             n = self.runs["tsc"]
-            return (self.tsc(), self.runs["tsc"] - n)
+            try:
+                v = self.tsc()
+            except ProbeFailure:
+                v = "raised"
+            return (v, self.runs["tsc"] - n)
+        elif k == "fail_next":
+            self.fail_next = True
         elif k == "tsc_inv":
             self.tsc._invalidate_terminal_size_cache()
         elif k == "cached":
             n = self.runs[op[1]]
-            return (self.cached(op[1]), self.runs[op[1]] - n)
+            try:
+                v = self.cached(op[1])
+            except ProbeFailure:
+                v = "raised"
+            return (v, self.runs[op[1]] - n)
         elif k == "cached_inv":
             self.cached._invalidate_cache()
         else:
@@ -145,14 +187,11 @@ class Impl:
     def key(self):
         L = self.L
         u, ti = L.utils, L.ti
-        isk = L.common.TextImage.__dict__["_is_on_kitty"]
-        return (self.e, tuple(u._cell_size_cache), u._queries_enabled, u._swap_win_size, ti._cell_ratio,
-                ti.AutoCellRatio.is_supported,
-                repr(sorted(closure_var(u.get_fg_bg_colors, "cache").items(), key=repr))
-                if isinstance(closure_var(u.get_fg_bg_colors, "cache"), dict) else "?",
-                repr(closure_var(u.get_terminal_name_version, "cache")),
-                repr(closure_var(isk, "cache")),
-                repr(closure_var(self.tsc, "cache")), repr(closure_var(self.cached, "cache")))
+        isk = L.common.TextImage.__dict__.get("_is_on_kitty")
+        return (self.e, self.fail_next, tuple(u._cell_size_cache), u._queries_enabled, u._swap_win_size, ti._cell_ratio,
+                ti.AutoCellRatio.is_supported, closure_state(u.get_fg_bg_colors),
+                closure_state(u.get_terminal_name_version), closure_state(isk), closure_state(self.tsc),
+                closure_state(self.cached))
 
 
 class Machine:
@@ -199,7 +238,7 @@ def alphabet(group, nenv):
     b = [["colors", -1], ["colors", 1], ["name"], ["render"]]
     if group == "query-memos3":
         return res + qu + b + [["colors", 0]]
-    c = [["tsc"], ["tsc_inv"], ["cached", 0], ["cached", 1], ["cached_inv"]]
+    c = [["tsc"], ["tsc_inv"], ["cached", 0], ["cached", 1], ["cached_inv"], ["fail_next"]]
     if group == "cell":
         return res + sw + qu + a
     if group == "query-memos":
